@@ -226,20 +226,24 @@ pub fn prepare_pos(bench: &mut Bench, fen: &str, depth: u8) -> Result<(), RefErr
     Ok(())
 }
 
+/// The key table an engine draws first in a simulated process with this key seed.
+pub fn key_table_for(key_seed: u64) -> engine::zobrist::ZobristTable {
+    let proc_ = Proc::start(SimState::new(key_seed, 0), None);
+    let (_, z) = proc_.run(engine::zobrist::ZobristTable::new);
+    z.expect("key table")
+}
+
 /// hash -> tree index for the key set that `key_seed` produces at the first draw.
 pub fn hash_map_for(bench: &mut Bench, key_seed: u64) -> Rc<HashMap<u64, usize>> {
     let pos = bench.pos.as_mut().unwrap();
     if let Some(m) = pos.hash_maps.get(&key_seed) {
         return m.clone();
     }
-    let st = SimState::new(key_seed, 0);
-    let sess = Session::new(st);
-    sess.fresh(&mut bench.searcher, false);
+    let z = key_table_for(key_seed);
     let mut m = HashMap::new();
     for (i, (b, _)) in pos.tree.iter().enumerate() {
-        m.entry(bench.searcher.verif_hash(b)).or_insert(i);
+        m.entry(z.hash(b)).or_insert(i);
     }
-    drop(sess);
     let m = Rc::new(m);
     if pos.hash_maps.len() > 8 {
         pos.hash_maps.clear();
@@ -263,14 +267,14 @@ pub fn leaf_map_for(bench: &mut Bench, key_seed: u64) -> Rc<HashMap<u64, usize>>
     if let Some(m) = bench.pos.as_ref().unwrap().leaf_maps.get(&key_seed) {
         return m.clone();
     }
-    let st = SimState::new(key_seed, 0);
-    let sess = Session::new(st);
-    sess.fresh(&mut bench.searcher, false);
+    // a key table of its own, drawn like the engine's first draw under this key seed: the
+    // engine under test (bench.searcher) must not be touched here, this runs between the
+    // interrupted and the completed search of a scenario
+    let z = key_table_for(key_seed);
     let mut m = HashMap::new();
     for (i, b) in bench.pos.as_ref().unwrap().leaves.as_ref().unwrap().iter().enumerate() {
-        m.entry(bench.searcher.verif_hash(b)).or_insert(i);
+        m.entry(z.hash(b)).or_insert(i);
     }
-    drop(sess);
     let m = Rc::new(m);
     let pos = bench.pos.as_mut().unwrap();
     if pos.leaf_maps.len() > 8 {
